@@ -282,6 +282,11 @@ def mb_reader_rules(ck, P):
 
 def rules(ck, P):
     mb_reader_rules(ck, P)
+    # tar / directory: the tile map is written by plain insert(coord, range) only — for a name that occurs twice in an archive (tar -r / -u
+    # append a replacement) the later member wins, as tar readers do; and the lookup reads that map with the requested coordinate (shared with C03)
+    from . import c03 as _c03
+    _c03.pair_rule(ck, P, "::TarTilesReader", "tar")
+    _c03.pair_rule(ck, P, "::DirectoryTilesReader", "directory")
     fixed_reads_rule(ck, P)
     scan_skip_rule(ck, P)
     # ---------------- R-SQL-NULL
